@@ -137,6 +137,17 @@ class SizedPart(Part):
         return ";3," in ";" + obs
 
 
+from props import C19 as _HS
+
+
+class ReceiveMaxAtHandshake(_HS.HsPart):
+    """clause 11 of the handshake scan only"""
+
+    def py_oracle(self, case, obs):
+        v = _HS.py_oracle(case, obs)
+        return v if v.startswith("0,11") else "1"
+
+
 def parts(tier, rng):
     res = [LimPart("corpus", "limiter", list(CORPUS), shards=1, rule="hand written cases")]
     n3 = 60 if tier == "quick" else 600
@@ -154,10 +165,21 @@ def parts(tier, rng):
     # the limits on real servers when several frames arrive in one read (Model/InboundBurst.v): scans P19 (v3: never
     # more handlers at once than max_receive), P20 (everything is handled once the handlers finish), P13 (v5: 0x93)
     res += IB.burst_parts(tier, rng, ("C12",))
+    # where the v5 limit comes from: the Receive Maximum in force is the one announced in CONNACK (configured value
+    # or the handshake's override) -- handshake engine, bursts of held QoS 1 publishes (clause 11 of its scan)
+    from props import C19 as HS
+    for p in HS.parts(tier, rng):
+        if isinstance(p, HS.HsPart):
+            cases = [c for c in p.cases if any(f.startswith("2,50,6,0,1,104,") and f.count(",50,6,0,1,104,") >= 1
+                                               for f in c.split(";")[3:])]
+            if cases:
+                res.append(ReceiveMaxAtHandshake("receive-max-at-handshake-" + p.name, "hs", cases, shards=16, rule=p.rule))
     return res
 
 
 def replay_parts(rp):
+    if rp.get("engine") == "hs":
+        return [ReceiveMaxAtHandshake("replay", "hs", [rp["case"]], shards=1)]
     if rp.get("engine", "limiter").startswith("sized"):
         return [SizedPart("replay", rp["engine"], [rp["case"]], shards=1)]
     if rp.get("engine", "limiter") != "limiter":
@@ -166,6 +188,8 @@ def replay_parts(rp):
 
 
 def known_signature(part, case, impl_obs, oracle):
+    if isinstance(part, _HS.HsPart):
+        return None
     if isinstance(part, IB.InbPart):
         return IB.known_signature(part, case, impl_obs, oracle)
     return None
@@ -188,6 +212,8 @@ CLAUSES = {
 
 
 def clause_text(part, oracle):
+    if isinstance(part, _HS.HsPart):
+        return _HS.clause_text(part, oracle)
     if isinstance(part, IB.InbPart):
         return IB.clause_text(part, oracle)
     f = oracle.split(";")[0].split(",")
